@@ -195,6 +195,9 @@ func (c *Ctx) rawSchema(depth int, pos string) *Schema {
 		if depth > 0 && pos != "component" {
 			alts = append(alts, alt{1, "nullable-ref"})
 		}
+		if depth > 0 && len(c.compositeComponents()) > 0 {
+			alts = append(alts, alt{1, "array-of-composite-ref"})
+		}
 	}
 	var names []string
 	for _, a := range alts {
@@ -215,6 +218,10 @@ func (c *Ctx) rawSchema(depth int, pos string) *Schema {
 		s = c.objectSchema(depth, true)
 	case "map":
 		s = &Schema{Type: "object", AdditionalProperties: c.addProps(depth)}
+	case "array-of-composite-ref":
+		name := rapid.SampledFrom(c.compositeComponents()).Draw(t, "composite_ref")
+		s = &Schema{Type: "array", Items: &Schema{Ref: RefSchemas + name}}
+		c.Tag("array-of-composite-ref")
 	case "nullable-ref":
 		// OpenAPI 3.0's idiom for "this object or null": nullable beside a one-member allOf
 		name := c.objectComponent(depth-1, "nullable_ref", false)
@@ -260,6 +267,21 @@ func (c *Ctx) rawSchema(depth int, pos string) *Schema {
 		s.Nullable = true
 	}
 	return s
+}
+
+// compositeComponents lists the component schemas that are (not aliases of) a oneOf
+// or allOf.
+func (c *Ctx) compositeComponents() []string {
+	var out []string
+	if c.Doc.Components == nil {
+		return nil
+	}
+	for _, name := range SortedKeys(c.Doc.Components.Schemas) {
+		if cs := c.Doc.Components.Schemas[name]; cs != nil && cs.Ref == "" && (len(cs.OneOf) > 0 || len(cs.AllOf) > 0) {
+			out = append(out, name)
+		}
+	}
+	return out
 }
 
 // hoist places s into components/schemas when it is admissible there and returns
@@ -322,6 +344,17 @@ func (c *Ctx) objectSchema(depth int, withProps bool) *Schema {
 		s.Properties[name] = c.Schema(depth-1, "property")
 		if rapid.Bool().Draw(t, "required") {
 			s.Required = append(s.Required, name)
+		}
+		// readOnly / writeOnly are annotations goag ignores: one Go type serves requests
+		// and responses, and `required` keeps its meaning in both directions
+		if ps := s.Properties[name]; ps.Ref == "" && rapid.IntRange(0, 7).Draw(t, "rw_only") == 0 {
+			if rapid.Bool().Draw(t, "read_only") {
+				ps.ReadOnly = true
+				c.Tag("prop:readOnly")
+			} else {
+				ps.WriteOnly = true
+				c.Tag("prop:writeOnly")
+			}
 		}
 	}
 	sort.Strings(s.Required)
